@@ -69,7 +69,7 @@ def scene_from_json(j):
     return sc
 
 
-def gen_scene(rng, sid, lattice=60, nt=None, mode=None, opt=None):
+def gen_scene(rng, sid, lattice=60, nt=None, mode=None, opt=None, generic=True):
     """3..6 terminals (30x30 shapes with a centre pin) on a lattice, one junction in free space, a star of connectors;
     registration none / by junction / by terminal list; improvement option 0/1/2; one or two later transactions moving a shape"""
     opt = rng.below(3) if opt is None else opt
@@ -77,10 +77,16 @@ def gen_scene(rng, sid, lattice=60, nt=None, mode=None, opt=None):
     nt = nt or rng.range(3, 6)
     boxes = []
     for k in range(nt):
-        for tries in range(100):
-            x, y = rng.below(10) * lattice, rng.below(10) * lattice
-            if all(abs(bx - x) >= 60 or abs(by - y) >= 60 for bx, by in boxes):
-                break
+        for tries in range(200):
+            if generic:
+                # generic position: no two terminals share a pin x or y coordinate, nor does a pin line touch another shape
+                x, y = rng.below(115) * 5, rng.below(115) * 5
+                if all(abs(bx - x) > 35 and abs(by - y) > 35 for bx, by in boxes):
+                    break
+            else:
+                x, y = rng.below(10) * lattice, rng.below(10) * lattice
+                if all(abs(bx - x) >= 60 or abs(by - y) >= 60 for bx, by in boxes):
+                    break
         boxes.append((x, y))
     sc.shapes = boxes
     if rng.chance(1, 4):
@@ -94,7 +100,8 @@ def gen_scene(rng, sid, lattice=60, nt=None, mode=None, opt=None):
         sc.reroute = ('T', list(range(nt)))
     else:
         for tries in range(100):
-            jx, jy = rng.below(10) * lattice + 45, rng.below(10) * lattice + 45
+            jx, jy = (rng.below(10) * lattice + 45, rng.below(10) * lattice + 45) if not generic else \
+                (rng.below(119) * 5 + 2, rng.below(119) * 5 + 3)
             if all(not (bx - 5 <= jx <= bx + 35 and by - 5 <= jy <= by + 35) for bx, by in boxes) and \
                all(not (o[0] - 5 <= jx <= o[2] + 5 and o[1] - 5 <= jy <= o[3] + 5) for o in sc.obstacles):
                 break
@@ -103,12 +110,18 @@ def gen_scene(rng, sid, lattice=60, nt=None, mode=None, opt=None):
             sc.conns.append((('S', k, 1), ('J', 0)) if rng.chance(1, 2) else (('J', 0), ('S', k, 1)))
         if mode == 1:
             sc.reroute = ('J', 0)
-    sc.family = ['improve_only', 'reroute_junction', 'reroute_terminals'][mode] + '_opt%d' % opt
+    sc.family = ('' if generic else 'lattice_') + ['improve_only', 'reroute_junction', 'reroute_terminals'][mode] + '_opt%d' % opt
     for t in range(rng.range(1, 2)):
         s = rng.below(nt)
         dx, dy = (rng.range(0, 4) - 2) * 20, (rng.range(0, 4) - 2) * 20
         nx, ny = boxes[s][0] + dx, boxes[s][1] + dy
-        if (dx or dy) and all(k == s or abs(bx - nx) >= 45 or abs(by - ny) >= 45 for k, (bx, by) in enumerate(boxes)) and \
+        if generic:
+            dx, dy = dx + rng.range(-1, 1) * 5, dy + rng.range(-1, 1) * 5
+            nx, ny = boxes[s][0] + dx, boxes[s][1] + dy
+            okm = all(k == s or (abs(bx - nx) > 35 and abs(by - ny) > 35) for k, (bx, by) in enumerate(boxes))
+        else:
+            okm = all(k == s or abs(bx - nx) >= 45 or abs(by - ny) >= 45 for k, (bx, by) in enumerate(boxes))
+        if (dx or dy) and okm and \
                 all(not (o[0] - 35 <= nx <= o[2] + 5 and o[1] - 35 <= ny <= o[3] + 5) for o in sc.obstacles):
             sc.moves.append([(s, dx, dy)])
             boxes = list(boxes)
@@ -195,11 +208,10 @@ def build_graph(sc, t):
                 rt = c['route']
                 hit = None
                 if rt:
-                    for q in (rt[0], rt[-1]):
-                        for si, b in t['boxes'].items():
-                            if inside_box(b, q) and not any(x[0] == 'S' and x[1] == si for x in c['ends']):
-                                # the other end must not already be that shape
-                                hit = si if hit is None else hit
+                    q = rt[0] if s == 0 else rt[-1]        # the route end on the side of the empty ConnEnd
+                    for si, b in t['boxes'].items():
+                        if inside_box(b, q):
+                            hit = si if hit is None else hit
                 if hit is not None and sc.reroute and sc.reroute[0] == 'T' and hit in sc.reroute[1]:
                     resolved.append((cid, s, hit))
                     e2.append(hit + 1)
@@ -228,6 +240,11 @@ def terminal_on_tree_path(sc, pre):
     t = pre['tx'][0]
     for s in sc.terminals():
         p = t['pins'].get(s)
+        for jid, j in t['juncs'].items():
+            if p is not None and j['pos'] == p:
+                return {'terminal': s, 'pin': p, 'junction_created_at_pin': jid}
+    for s in sc.terminals():
+        p = t['pins'].get(s)
         if p is None:
             continue
         for jid, j in t['juncs'].items():
@@ -236,11 +253,11 @@ def terminal_on_tree_path(sc, pre):
         for cid, c in t['conns'].items():
             rt = c['route']
             own = any(e[0] == 'S' and e[1] == s for e in c['ends'])
+            if len(rt) >= 2 and p in (rt[0], rt[-1]):
+                continue        # the connector simply ends at this terminal
             for k in range(len(rt) - 1):
-                if on_segment(rt[k], rt[k + 1], p) and not own:
-                    return {'terminal': s, 'pin': p, 'on_route_of': cid}
-            if own and len(rt) >= 3 and any(on_segment(rt[k], rt[k + 1], p) for k in range(1, len(rt) - 2)):
-                return {'terminal': s, 'pin': p, 'interior_of_own_route': cid}
+                if on_segment(rt[k], rt[k + 1], p):
+                    return {'terminal': s, 'pin': p, 'interior_of_route': cid, 'own_connector': own}
     return None
 
 
@@ -292,9 +309,16 @@ def judge(sc, o, graphs, answers, pre, stats):
     base = {'scene': sc.as_json(), 'replay': './check C12 --replay <this file>  (or: write scene_text to a file and run build/bin/c12_hyper-exc-* <file>)'}
     if o is None:
         return [(dict(base, what='harness produced no output for the scene'), None)]
-    onpath = terminal_on_tree_path(sc, pre) if sc.opt >= 1 else None
+    # the junctions' position() still is where the rerouter put them (improvement only sets recommendedPosition()), so the scene's
+    # own output shows the pre-improvement junction places; the twin run adds the pre-improvement routes (it may differ from the
+    # scene's own intermediate tree: mtst.cpp orders tree roots by pointer value)
+    onpath = terminal_on_tree_path(sc, o) or (terminal_on_tree_path(sc, pre) if sc.opt >= 1 else None)
+    tl = bool(sc.reroute and sc.reroute[0] == 'T')
     if o['assert']:
-        bad.append((dict(base, what='COLA_ASSERT failed inside libavoid during a hyperedge scene', assertion=o['assert']), None))
+        fpa = None
+        if tl and 'conn->m_dst_connend' in o['assert'] and 'hyperedgetree.cpp' in o['assert']:
+            fpa = FP_TLIST + ':assert'      # the improver meets a connector of the terminal-list rerouting whose end was never set
+        bad.append((dict(base, what='COLA_ASSERT failed inside libavoid during a hyperedge scene', assertion=o['assert']), fpa))
     T = sc.terminals()
     gi = 0
     tlist_reported = False
@@ -307,6 +331,8 @@ def judge(sc, o, graphs, answers, pre, stats):
         stats['transactions'] += 1
         stats['connectors'] += len(t['conns'])
         fp = FP_FJ if onpath else None
+        if fp is None and tl and (dangling or resolved):
+            fp = FP_TLIST + ':moved'        # an unattached end does not follow its shape: it dangles after the shape moved
         extra = {'terminal_on_tree_path': onpath} if onpath else {}
         # ---- tree with the same terminals (verified checker)
         if ans[1] != '1':
@@ -355,7 +381,7 @@ def judge(sc, o, graphs, answers, pre, stats):
             jb, ja = set(t['jbefore']), set(j for j, v in t['juncs'].items() if v['live'])
             nc, dc, nj, dj = set(t['newc']), set(t['delc']), set(t['newj']), set(t['delj'])
             if (nc - dc) != (ca - cb) or (dc - nc) != (cb - ca) or (nj - dj) != (ja - jb) or (dj - nj) != (jb - ja) or \
-                    any(x < 0 for x in t['newc'] + t['delc'] + t['delj']):
+                    any(x == -1 for x in t['delc']):
                 bad.append((dict(base, what='reported new/deleted object lists differ from the set difference of live objects before/after the transaction',
                                  tx=k, connectors_before=sorted(cb), connectors_after=sorted(ca), junctions_before=sorted(jb),
                                  junctions_after=sorted(ja), new_connectors=t['newc'], deleted_connectors=t['delc'],
@@ -387,12 +413,16 @@ def evaluate(scenes, res=None):
     byid = {sc.sid: (sc, o, g, a) for sc, o, g, a in results}
     stats = {k: 0 for k in ('transactions', 'connectors', 'route_ends', 'list_checks', 'tree_bad', 'tlist_unattached')}
     fam, all_bad, samples = {}, [], []
+    stats['tree_bad_by_family'] = {}
     for sc, o, g, a in results:
         if sc.twin_of:
             continue
         fam[sc.family] = fam.get(sc.family, 0) + 1
         pre = byid.get(sc.sid + '_pre', (None, None))[1]
+        tb = stats['tree_bad']
         bad = judge(sc, o, g, a, pre, stats)
+        if stats['tree_bad'] > tb:
+            stats['tree_bad_by_family'][sc.family] = stats['tree_bad_by_family'].get(sc.family, 0) + 1
         all_bad += bad
         if len(samples) < 3 and o and o['tx'] and o['tx'][0]['complete']:
             samples.append({'scene': sc.sid, 'family': sc.family, 'edges_after_tx0': g[0][0] if g else None, 'terminals': [x + 1 for x in sc.terminals()]})
@@ -423,10 +453,16 @@ def run(tier):
     scenes = load_corpus()
     ncorpus = len(scenes)
     for i in range(n):
-        scenes.append(gen_scene(rng.fork(), 's%d' % i))
-    # the F-j family of the design round: rerouting by junction + major improvement, 5-6 terminals
-    for i in range(n // 2):
-        scenes.append(gen_scene(rng.fork(), 'fj%d' % i, nt=rng.range(5, 6), mode=1, opt=2))
+        scenes.append(gen_scene(rng.fork(), 's%d' % i, mode=rng.below(2)))
+    # classified stream: registration by terminal list (the new connectors have unattached ends; a terminal at a junction is dropped)
+    for i in range(n // 6):
+        scenes.append(gen_scene(rng.fork(), 'tl%d' % i, mode=2))
+    # classified stream: terminals on a 60-unit lattice (pins collinear, terminals lying on tree paths); includes the F-j family
+    # of the design round (rerouting by junction + major improvement, 5-6 terminals)
+    for i in range(n // 4):
+        scenes.append(gen_scene(rng.fork(), 'lat%d' % i, generic=False))
+    for i in range(n // 4):
+        scenes.append(gen_scene(rng.fork(), 'fj%d' % i, nt=rng.range(5, 6), mode=1, opt=2, generic=False))
     all_bad, stats, fam, samples, crashed = evaluate(scenes)
     if crashed:
         all_bad.append(({'what': 'harness c12_hyper crashed', 'detail': crashed}, None))
